@@ -3,6 +3,6 @@ EXTENDS Alphabet, TLC, Json
 KM == {"NumericString", "PrintableString", "VisibleString", "IA5String", "BMPString", "UniversalString"}
 KMquick == {"NumericString", "IA5String", "BMPString"}
 Other == {"UTF8String", "TeletexString", "GeneralString", "GraphicString"}
-OtherQuick == {"UTF8String"}
+OtherQuick == Other   \* every type that is not known-multiplier, in both tiers: "no alphabet annotation" is decided per type
 Emit == Done => PrintT(<<"CASE", ToJson([os |-> os, ps |-> ps, ty |-> ty, sizepos |-> sizepos, pos |-> pos])>>)
 =============================================================================
